@@ -573,7 +573,9 @@ func envStubs(m map[string]stubFn) {
 	// --- allocator contract (go-journal alloc)
 	m["(*github.com/mit-pdos/go-journal/alloc.Alloc).allocBit"] = func(e *Engine, fn *ssa.Function, a []Value) Value {
 		if e.cfg.Params["realalloc"] == 1 {
-			return e.callBody(fn, a, nil)
+			n := e.callBody(fn, a, nil)
+			e.world.event(Event{Kind: EvAlloc, A: n.(*Term), Obj: IfaceV{t: fn.Signature.Recv().Type(), v: a[0]}, Site: e.callerSite()})
+			return n
 		}
 		bm := fieldLoc(a[0], "bitmap", recvElem(fn)).Load().(SliceV)
 		if rep, ok := e.world.allocRep[a[0].(Ptr).loc]; ok {
